@@ -380,6 +380,28 @@ class Parser(object):
                 else:
                     els = self.parse_block()
             return ('if', c, then, els)
+        if t[0] == 'op' and t[1] == ';':
+            self.next()
+            return ('empty',)
+        if t[0] == 'id' and t[1] == 'do':
+            self.next()
+            body = self.parse_block()
+            self.expect('while')
+            self.expect('(')
+            cond = self.parse_expr()
+            self.expect(')')
+            self.expect(';')
+            return ('dowhile', body, cond)
+        if t[0] == 'id' and t[1] == 'for' and self.at('(', 1) and self.at_type(2):
+            # C99: for (T x = e; cond; step)
+            self.next()
+            self.expect('(')
+            decl = self.parse_decl()
+            cond = self.parse_expr()
+            self.expect(';')
+            step = self.parse_expr()
+            self.expect(')')
+            return ('fordecl', decl, cond, step, self.parse_block())
         if t[0] == 'id' and t[1] == 'for':
             self.next()
             self.expect('(')
@@ -423,7 +445,7 @@ class Parser(object):
             self.next()
             self.expect(';')
             return ('break',)
-        if t[0] == 'id' and t[1] in ('while', 'do', 'goto', 'continue'):
+        if t[0] == 'id' and t[1] in ('while', 'goto', 'continue'):
             self.err('%s not in the dialect' % t[1])
         if allow_decl and self.at_type():
             return self.parse_decl()
@@ -674,6 +696,18 @@ def show_stmt(s, ind=0):
         for x in s[4]:
             out += show_stmt(x, ind + 1)
         return out + [p + '}']
+    if k == 'empty':
+        return [p + ';']
+    if k == 'dowhile':
+        out = [p + 'do {']
+        for x in s[1]:
+            out += show_stmt(x, ind + 1)
+        return out + [p + '} while %s;' % show(s[2])]
+    if k == 'fordecl':
+        out = [p + 'for (%s %s; %s) {' % (show_stmt(s[1])[0], show(s[2]), show(s[3]))]
+        for x in s[4]:
+            out += show_stmt(x, ind + 1)
+        return out + [p + '}']
     if k == 'switch':
         out = [p + 'switch %s {' % show(s[1])]
         for lab, body in s[2]:
@@ -736,6 +770,13 @@ def _rename_stmt(s, ren):
     if k == 'for':
         return ('for', _rename_expr(s[1], ren), _rename_expr(s[2], ren), _rename_expr(s[3], ren),
                 [_rename_stmt(x, ren) for x in s[4]])
+    if k == 'empty':
+        return s
+    if k == 'dowhile':
+        return ('dowhile', [_rename_stmt(x, ren) for x in s[1]], _rename_expr(s[2], ren))
+    if k == 'fordecl':
+        return ('fordecl', _rename_stmt(s[1], ren), _rename_expr(s[2], ren), _rename_expr(s[3], ren),
+                [_rename_stmt(x, ren) for x in s[4]])
     if k == 'switch':
         return ('switch', _rename_expr(s[1], ren),
                 [(_rename_expr(l, ren) if l is not None else None, [_rename_stmt(x, ren) for x in b]) for l, b in s[2]])
@@ -753,10 +794,29 @@ def alpha_function(f):
     ren = {}
     for i, (_, n) in enumerate(f.params):
         ren[n] = 'p%d' % i
-    j = 0
-    for s in f.body:
-        if s[0] == 'decl':
-            ren[s[2]] = 'l%d' % j
-            j += 1
+    j = [0]
+
+    def scan(stmts):
+        for s in stmts:
+            if s[0] == 'decl':
+                ren[s[2]] = 'l%d' % j[0]
+                j[0] += 1
+            elif s[0] == 'fordecl':
+                ren[s[1][2]] = 'l%d' % j[0]
+                j[0] += 1
+                scan(s[4])
+            elif s[0] in ('if',):
+                scan(s[2])
+                scan(s[3] or [])
+            elif s[0] == 'for':
+                scan(s[4])
+            elif s[0] == 'dowhile':
+                scan(s[1])
+            elif s[0] == 'block':
+                scan(s[1])
+            elif s[0] == 'switch':
+                for _, b in s[2]:
+                    scan(b)
+    scan(f.body)
     return Function(f.name, f.ret, [(t, ren[n]) for t, n in f.params], [_rename_stmt(s, ren) for s in f.body],
                     f.static, f.line)
